@@ -27,7 +27,7 @@ RULE = ("seeded (pipeline, run_space) pairs (1-3 blocks, both modes at block and
         "runs in forked children, the launch, `inspect`, re-launch after cosmetic rewrite, after a plan mutation, after source "
         "file touch/change, and with same/different idempotency key. distinct_nontrivial = distinct (pair digest, options) "
         "launches with >= 2 planned runs."
-        " Further seeded dimensions: multi-column sources with select, YAML in a sub-directory with decoy files in the cwd, empty plans, inspect+launch repeated in a fresh interpreter under another hash seed, --run-space-file, retry with the same idempotency key (attempt+1), run_space nested under pipeline:.")
+        " Further seeded dimensions: multi-column sources with select, YAML in a sub-directory with decoy files in the cwd, empty plans, inspect+launch repeated in a fresh interpreter under another hash seed, --run-space-file, retry with the same idempotency key (attempt+1), run_space nested under pipeline:. Seventh round: failing runs ending with SimAbort/SystemExit, non-ASCII values and null cells for unconsumed keys, every run of a plan has the same keys.")
 REAL_COMPONENTS = ["cli _run launch loop", "expand_run_space (plan source)", "RunSpaceIdentityService / LaunchManager / TraceEmitter",
                    "inspection builder (spec id)", "orchestrator pipeline_start FK fields", "JsonlTraceDriver (file / dir / runspace file)"]
 STUB_COMPONENTS = ["leaf processors", "SvOrchestrator/RecordingExecutor selected from YAML", "SimClock/SimUUID", "file seam"]
